@@ -39,6 +39,7 @@ mk_under = z3.Function('ty_mk_under', TyS, TyS, TyS)
 
 mk_swap = z3.Function('box_swap', TyS, TyS, BoxS)       # Swap(left, right) as a function of its two one-object types
 boxout = z3.Function('box_function', BoxS, TyS, TyS)     # the python function of a cartesian box, on tuples of wire values
+ob_is_none = z3.Function('ob_is_none', Ob, z3.BoolSort())     # an abstract wire value may be None (any python value)
 pro_of = z3.Function('pro_of', IntS, TyS)     # PRO(n) = Ty(1, ..., 1): the type of n wires named 1, a function of n alone
 ob_truthy = z3.Function('ob_truthy', Ob, z3.BoolSort())      # truth value of an abstract wire value (any: 0, '', None are falsy)
 
